@@ -434,6 +434,140 @@ theorem session_key (S : Session) (priv : Bytes)
   rw [events_loginSteps] at hm
   rw [ha]; exact S.lp.rsa.law pk priv _ (hkey sid pk tok hm)
 
+/-! ## thresholds are never unset: the server's flag is switched ON, at most once -/
+
+/-- A set threshold stays set. -/
+theorem step_threshold_isSome (P : LoginParams) (s : ClientState) (a : Step)
+    (h : s.threshold.isSome = true) : (step P s a).threshold.isSome = true := by
+  cases a with
+  | flush =>
+    simp only [step]
+    split
+    · exact h
+    · exact h
+  | recv e =>
+    simp only [step]
+    split
+    · exact h
+    · cases e with
+      | encRequest sid pk tok =>
+        by_cases h1 : sid = "-" <;> by_cases h2 : P.hasToken = true <;>
+          simp [Login.react, ClientState.writeNow, h1, h2, h]
+      | setCompression t => rfl
+      | pluginRequest i c d => exact h
+      | success => exact h
+      | disconnect j => exact h
+
+/-- "once on, always on". -/
+def OnOrder (a b : Bool) : Prop := a = true → b = true
+
+theorem pairwise_const (c : Bool) : ∀ l : List Bool, (∀ m ∈ l, m = c) → l.Pairwise OnOrder
+  | [], _ => List.Pairwise.nil
+  | m :: l, h => by
+    rw [List.pairwise_cons]
+    refine ⟨?_, pairwise_const c l fun x hx => h x (by simp [hx])⟩
+    intro x hx _
+    rw [h x (by simp [hx]), ← h m (by simp)]
+    assumption
+
+/-- The compression flags of the outbox are monotone, and bounded by the flag of the state. -/
+structure ThrInv (s : ClientState) : Prop where
+  mono : (modesOf s.outbox).Pairwise OnOrder
+  le : ∀ m ∈ modesOf s.outbox, m = true → s.threshold.isSome = true
+
+theorem ThrInv.step {P : LoginParams} {s : ClientState} (h : ThrInv s) (a : Step) :
+    ThrInv (step P s a) := by
+  obtain ⟨later, ho, hf, -, -, -⟩ := step_frames P s a
+  have hl : ∀ m ∈ modesOf later, m = s.threshold.isSome := by
+    intro m hm
+    obtain ⟨f, hf', rfl⟩ := List.mem_map.mp hm
+    rw [(hf f hf').2]
+  have hm : modesOf (Login.step P s a).outbox = modesOf s.outbox ++ modesOf later := by
+    rw [ho]; simp [modesOf]
+  constructor
+  · rw [hm, List.pairwise_append]
+    refine ⟨h.mono, pairwise_const _ _ hl, ?_⟩
+    intro x hx y hy hxt
+    rw [hl y hy]; exact h.le x hx hxt
+  · intro m hmem hmt
+    rw [hm] at hmem
+    apply step_threshold_isSome
+    rcases List.mem_append.mp hmem with hmem | hmem
+    · exact h.le m hmem hmt
+    · rw [← hl m hmem]; exact hmt
+
+theorem thrInv_exec (P : LoginParams) (steps : List Step) : ThrInv (exec P .init steps) := by
+  have : ∀ (s : ClientState), ThrInv s → ThrInv (exec P s steps) := by
+    induction steps with
+    | nil => intro s h; simpa [exec_nil] using h
+    | cons a r ih => intro s h; rw [exec_cons]; exact ih _ (h.step a)
+  exact this _ ⟨List.Pairwise.nil, fun m hm => by cases hm⟩
+
+/-- On monotone flags the script only ever announces "on". -/
+theorem expectOf_on (cur : Bool) (modes : List Bool) (fin : Bool)
+    (h : (cur :: (modes ++ [fin])).Pairwise OnOrder) :
+    ∀ e ∈ expectOf cur modes fin, e = .frame ∨ e = .comp true := by
+  induction modes generalizing cur with
+  | nil =>
+    intro e he
+    simp only [expectOf] at he
+    have hcf : OnOrder cur fin := by
+      rw [List.nil_append, List.pairwise_cons] at h
+      exact h.1 fin (by simp)
+    by_cases hfc : fin = cur
+    · simp [hfc] at he
+    · simp only [hfc, if_false, List.mem_singleton] at he
+      right
+      rw [he]
+      cases fin
+      · cases cur
+        · exact absurd rfl hfc
+        · exact absurd (hcf rfl) (by simp)
+      · rfl
+  | cons m ms ih =>
+    intro e he
+    rw [List.cons_append, List.pairwise_cons] at h
+    have hcm : OnOrder cur m := h.1 m (by simp)
+    simp only [expectOf, List.mem_append, List.mem_cons] at he
+    rcases he with he | he | he
+    · by_cases hmc : m = cur
+      · simp [hmc] at he
+      · simp only [hmc, if_false, List.mem_singleton] at he
+        right
+        rw [he]
+        cases m
+        · cases cur
+          · exact absurd rfl hmc
+          · exact absurd (hcm rfl) (by simp)
+        · rfl
+    · exact Or.inl he
+    · exact ih m h.2 e he
+
+/-- The number of frames a script reads is the number of flags it was built from. -/
+theorem expectOf_frames (cur : Bool) (modes : List Bool) (fin : Bool) :
+    ((expectOf cur modes fin).filter (· == .frame)).length = modes.length := by
+  induction modes generalizing cur with
+  | nil => by_cases h : fin = cur <;> simp [expectOf, h]
+  | cons m ms ih =>
+    by_cases h : m = cur <;> simp [expectOf, h, ih]
+
+/-- The script of a session's server: as many frame entries as login frames, and apart from those
+only "compression on". -/
+theorem serverScript_shape (S : Session) :
+    (∀ e ∈ serverScript S, e = .frame ∨ e = .comp true) ∧
+      ((serverScript S).filter (· == .frame)).length = (outbox S).length := by
+  have hinv := thrInv_exec S.lp S.loginSteps
+  constructor
+  · apply expectOf_on
+    rw [List.pairwise_cons, List.pairwise_append]
+    refine ⟨fun x _ h => (by cases h), hinv.mono, List.pairwise_singleton _ _, ?_⟩
+    intro x hx y hy hxt
+    simp only [List.mem_singleton] at hy
+    rw [hy]; exact hinv.le x hx hxt
+  · unfold serverScript
+    rw [expectOf_frames]
+    simp [modesOf]
+
 /-! ## concrete sessions for the non-vacuity examples and the negative witnesses -/
 
 /-- Login parameters of the examples: `Login.demoParams` (RSA = "prefix one byte" / "drop one
